@@ -74,19 +74,45 @@ def jobs_for(tier, rng, out):
     return jobs
 
 
+def sched_plan(tier, rng):
+    """forests for the SluSched replay: exhaustive state graphs (one implementation test per transition) and sampled behaviours"""
+    plan, sim = [], []
+    quick = tier == "quick"
+
+    def item(f, P):
+        return (f, forests.min_sbnd(f), P, rng.choice([1, 2, 3]), rng.choice([1, 2, 3]), rng.choice([2, 3, 4]), rng.choice(["max", "max", "none"]))
+    for f in forests.all_forests(4) + (forests.all_forests(5) if not quick else rng.sample(forests.all_forests(5), 8)):
+        plan.append(item(f, 2))
+    for f in forests.all_forests(3) + ([] if quick else forests.all_forests(4)):
+        plan.append(item(f, 3))
+    for _ in range(8 if quick else 60):
+        n = rng.randint(6, 9 if quick else 11)
+        plan.append(item(forests.random_forest(n, rng, chain_bias=rng.choice([0.3, 0.6]), root_prob=0.2), 2))
+    for _ in range(6 if quick else 60):
+        n = rng.randint(10, 16 if quick else 28)
+        sim.append(item(forests.random_forest(n, rng, chain_bias=rng.choice([0.3, 0.6]), root_prob=0.2), rng.choice([3, 4, 6])) + (300 if quick else 3000, 400))
+    return plan, sim
+
+
 def main(tier):
     ck = common.Check("C04", tier, "model_checking")
     rng = random.Random(ck.seed * 1000003 + 4)
     build.ensure("verif")
     ck.cov["rule"] = ("model: exhaustive TLC runs of SluPipe under FairSpec with PROPERTY Termination per (forest, P, panel, relax, maxsuper), "
                       "with and without zero pivots; implementation: recorded factorizations with 1..64 threads (4 x cores), P > n, "
-                      "singular inputs, injected delays, each under a 180 s watchdog, validated against SluPipeTrace; "
+                      "singular inputs, injected delays, each under a 180 s watchdog, validated against SluPipeTrace; replay: per forest, every "
+                      "transition of SluSched's state graph (all interleavings of loop test / scheduler section / mark / finish) executed on the real "
+                      "scheduling functions with outputs and complete state compared; "
                       "distinct = distinct (forest/parameters) model runs + distinct job descriptions")
     ck.assumptions += ["liveness under weak fairness of each worker's next step and of the master (an OS scheduler that eventually runs every thread)",
                        "sequentially consistent interleavings; spin flags are monotone (set under the scheduler lock, cleared once by the owner)",
                        "a job that exceeds the 180 s watchdog is reported as non-termination"]
     pipecheck.run_mc(ck, mc_plan(tier, rng), timeout=600 if tier == "quick" else 3000)
     zero_pivot_runs(ck, tier, rng)
+    # every interleaving of scheduler sections and panel completions that TLC enumerates for a forest, executed on the
+    # real ParallelInit / pxgstrf_scheduler (panel returned, tasks_remain, queue count, states, ukids after every call)
+    sp, ssim = sched_plan(tier, rng)
+    pipecheck.run_sched_replay(ck, sp, ssim)
     out = os.path.join(ck.dir, "tr")
     os.makedirs(out, exist_ok=True)
 
